@@ -427,7 +427,75 @@ def gen_specs(rng, tier):
                       pre=pres[int(rng.integers(0, len(pres)))],
                       layers=[dict(w=wkinds[int(rng.integers(0, len(wkinds)))], b=biases[int(rng.integers(0, 3))],
                                    act=None, act_mode=None)]))
+  # (f) LAYER GEOMETRY x STATED INPUT RANGE (strengthening round, seed C18-10).  Every layer above is built with the
+  #     default padding="valid", strides 1, dilation 1 — each output position sees every tap on a real input element.
+  #     Under padding="same" / "causal" the border positions see a sub-rectangle of the taps (the rest is multiplied by
+  #     padded ZEROS, which lie outside a stated range that excludes zero); strides / dilation move the taps.  Kernels
+  #     whose sign is decided by the tap position (one row / column / corner against the rest) put the cancelling taps on
+  #     the padding; every model is sized for a list of ranges (containing / touching / excluding zero, degenerate
+  #     points, both signs; see EST_RANGES) and judged on the exact worst-case input of every output element.
+  geoms = {"conv1d": [("same", 1, 1), ("causal", 1, 1), ("same", 2, 1), ("same", 1, 2), ("causal", 1, 2), ("valid", 1, 1),
+                      ("valid", 2, 1), ("valid", 1, 2)],
+           "conv2d": [("same", 1, 1), ("same", 1, 1), ("same", 2, 1), ("same", 1, 2), ("valid", 1, 1), ("valid", 2, 1),
+                      ("valid", 1, 2)],
+           "depthwise": [("same", 1, 1), ("same", 1, 1), ("same", 2, 1), ("same", 1, 2), ("valid", 1, 1), ("valid", 2, 1),
+                         ("valid", 1, 2)]}
+  ksizes = [(3, 3), (2, 2), (3, 2), (2, 3), (3, 1), (1, 3)]
+  gw = ["fixed40", "fixed40", "ternary", "fixed40", "po2_4", "binary", "fixed"]
+  k = int(rng.integers(0, 1000))
+  for rep in range(1 if tier == "quick" else 4):
+    for fam in ("conv2d", "conv1d", "depthwise"):
+      for (pad, st, dil) in geoms[fam]:
+        pat = SIGN_PATTERNS[k % len(SIGN_PATTERNS)] + ("/flip" if (k // 3) % 2 else "")
+        if rep == 0 and pad == "causal":
+          pat = ["first_neg", "first_pos"][k % 2]                                # causal pads at the beginning
+        elif rep == 0 and pad == "same":
+          pat = ["first_neg", "last_neg", "first_pos", "last_pos"][k % 4]        # aimed at the padded rows (even sizes: the end)
+        ks = ksizes[k % len(ksizes)] if (rep or pad == "valid" or k % 3) else (3, 3)
+        if fam == "conv1d":
+          ks = (max(ks), 1)
+        specs.append(dict(stream="est_geom", family=fam, pre=None, cin=1 + k % 2, ksize=ks, grow=1 + k % 2,
+                          geom=dict(padding=pad, strides=st, dilation=dil), est_ranges=True,
+                          layers=[dict(w=gw[k % len(gw)] if rep or k % 4 else "fixed40", b=["none", "fixed40"][(k // 2) % 2],
+                                       act=None, act_mode=None, dm=1 + (k % 5 == 0), signs=pat)]))
+        k += 1
+    for n_in in (3, 6):
+      specs.append(dict(stream="est_geom", family="dense", pre=None, n_in=n_in, est_ranges=True,
+                        layers=[dict(w="fixed40", b=["none", "fixed40"][k % 2], act=None, act_mode=None,
+                                     signs=SIGN_PATTERNS[k % len(SIGN_PATTERNS)] + "/flip")]))
+      k += 1
   return specs
+
+
+# stated input ranges of the estimator: containing zero, touching zero from either side, strictly positive, strictly
+# negative, degenerate points (what analyze_accumulator_from_sample derives from an all-max sample), zero-width at zero
+EST_RANGES = [(-1.0, 1.0), (0.0, 2.0), (-1.0, 0.0), (0.75, 1.0), (1.0, 1.0), (-1.0, -0.75), (0.25, 3.0), (-2.0, -2.0),
+              (0.5, 0.5), (-0.25, 1.0), (-3.0, -0.5), (0.0, 0.0)]
+
+
+def range_class(xmin, xmax):
+  if xmin == xmax:
+    return "point_" + ("zero" if xmin == 0 else "positive" if xmin > 0 else "negative")
+  if xmin > 0:
+    return "positive"
+  if xmax < 0:
+    return "negative"
+  if xmin == 0 or xmax == 0:
+    return "touches_zero"
+  return "contains_zero"
+
+
+def range_form(xmin, xmax, form):
+  """the same stated range in another argument form: tuple / list / ndarray / numpy scalars / python ints"""
+  if form == 1:
+    return [xmin, xmax]
+  if form == 2:
+    return np.array([xmin, xmax], dtype=np.float64)
+  if form == 3:
+    return (np.float32(xmin), np.float32(xmax))
+  if form == 4 and float(xmin).is_integer() and float(xmax).is_integer():
+    return (int(xmin), int(xmax))
+  return (xmin, xmax)
 
 
 def lattice(bits, integer, signed):
@@ -515,6 +583,53 @@ def po2_top(rng, name, kw, shape, top, below_top):
   return w.reshape(shape).astype(np.float32)
 
 
+SIGN_PATTERNS = ["first_neg", "last_neg", "first_pos", "last_pos", "first_col_neg", "last_col_pos", "corner_neg",
+                 "center_pos", "checker", "chan_alt"]
+
+
+def sign_by_tap(rng, w, pattern, cls):
+  """kernel with the magnitudes of `w` (zeros replaced by the smallest non-zero magnitude) and the SIGN decided by the
+  tap POSITION: the taps of one kernel row / column / corner against all the others.  Under padding="same" / "causal" the
+  border output positions see exactly such a sub-rectangle of the taps (the others are multiplied by padded zeros), under
+  dilation / strides the taps land on different input elements — the cancelling taps can be made to fall on the padding.
+  dense kernels (n_in, units): the "row" is the input index.  "chan_alt": sign by input-channel parity.  A suffix
+  "/flip" negates the pattern on every second output channel (most positive and most negative sums both occur)."""
+  flip = pattern.endswith("/flip")
+  pattern = pattern.split("/")[0]
+  a = np.abs(np.asarray(w, dtype=np.float64))
+  nz = a[a > 0]
+  a = np.where(a > 0, a, nz.min() if nz.size else 0.5)
+  nsp = max(a.ndim - 2, 1)                                    # number of spatial axes (dense: the input index)
+  idx = np.indices(a.shape)
+  r = idx[0]
+  c = idx[1] if nsp > 1 else np.zeros_like(r)
+  last_r, last_c = a.shape[0] - 1, (a.shape[1] - 1 if nsp > 1 else 0)
+  if pattern in ("first_neg", "first_pos"):
+    neg = (r == 0)
+  elif pattern in ("last_neg", "last_pos"):
+    neg = (r == last_r)
+  elif pattern == "first_col_neg":
+    neg = (c == 0) if nsp > 1 else (r == 0)
+  elif pattern == "last_col_pos":
+    neg = (c == last_c) if nsp > 1 else (r == last_r)
+  elif pattern == "corner_neg":
+    neg = (r == 0) & (c == 0)
+  elif pattern == "center_pos":
+    neg = ~((r == a.shape[0] // 2) & (c == (a.shape[1] // 2 if nsp > 1 else 0)))
+  elif pattern == "checker":
+    neg = ((r + c) % 2 == 0)
+  elif pattern == "chan_alt":
+    neg = (idx[max(a.ndim - 2, 0)] % 2 == 1)
+  else:
+    raise ValueError(pattern)
+  if pattern in ("first_pos", "last_pos", "last_col_pos"):
+    neg = ~neg
+  sgn = np.where(neg, -1.0, 1.0)
+  if flip:
+    sgn = sgn * np.where(idx[-1] % 2 == 1, -1.0, 1.0)
+  return (a * sgn).astype(np.float32)
+
+
 def raw_bias(rng, spec, n, mode="random", below_top=0):
   if spec is None:                          # a bias without quantizer: the default (8, 0, signed) lattice
     return (rng.integers(-128, 128, size=n) / 128.0).astype(np.float32)
@@ -555,13 +670,22 @@ def build(rng, spec, idx):
   cin = int(rng.choice([1, 2, 3]))
   cin = spec.get("cin", cin)
   kh, kw_ = spec.get("ksize", (kh, kw_))
+  # layer geometry (strengthening round, seed C18-10): padding / strides / dilation decide WHICH taps an output position
+  # sees; no reported type and no estimate may depend on it, but border positions of a padded layer see zeros
+  geom = dict(padding="valid", strides=1, dilation=1)
+  geom.update(spec.get("geom") or {})
+  b.geom = geom
+  grow = int(spec.get("grow", 0))
+
+  def span(kk):
+    return max(kk + grow, (kk - 1) * geom["dilation"] + 1)
   if fam == "dense":
     n_in = spec.get("n_in", int(rng.choice([1, 2, 3, 4, 5, 8, 9])))
     ishape = (n_in,)
   elif fam == "conv1d":
-    ishape = (kh + int(rng.integers(0, 2)), cin)
+    ishape = (span(kh) + int(rng.integers(0, 2)), cin)
   else:
-    ishape = (kh + int(rng.integers(0, 2)), kw_ + int(rng.integers(0, 2)), cin)
+    ishape = (span(kh) + int(rng.integers(0, 2)), span(kw_) + int(rng.integers(0, 2)), cin)
   b.ishape = ishape
   # how the source type reaches QTools: a list (default), a tuple, or not at all (cfg.default_source_quantizer)
   b.src_form = spec.get("src_form")
@@ -613,21 +737,25 @@ def build(rng, spec, idx):
       lyr = QDense(ls.get("units", int(rng.choice([1, 2, 3]))), kernel_quantizer=kq, **common)
       cls = "QDense"
     elif kind == "conv1d":
-      lyr = QConv1D(int(rng.choice([1, 2, 3])), kh, kernel_quantizer=kq, **common)
+      lyr = QConv1D(int(rng.choice([1, 2, 3])), kh, kernel_quantizer=kq, padding=geom["padding"],
+                    strides=geom["strides"], dilation_rate=geom["dilation"], **common)
       cls = "QConv1D"
     elif kind == "conv2d":
-      lyr = QConv2D(int(rng.choice([1, 2, 5])), (kh, kw_), kernel_quantizer=kq, **common)
+      lyr = QConv2D(int(rng.choice([1, 2, 5])), (kh, kw_), kernel_quantizer=kq, padding=geom["padding"],
+                    strides=geom["strides"], dilation_rate=geom["dilation"], **common)
       cls = "QConv2D"
     else:
       lyr = QDepthwiseConv2D((kh, kw_), depth_multiplier=ls.get("dm", int(rng.choice([1, 1, 2]))),
-                             depthwise_quantizer=kq, **common)
+                             depthwise_quantizer=kq, padding=geom["padding"], strides=geom["strides"],
+                             dilation_rate=geom["dilation"], **common)
       cls = "QDepthwiseConv2D"
     x = lyr(x)
     it = dict(kind="layer", cls=cls, layer=lyr, wspec=wspec, bspec=bspec, has_bias=has_bias,
               unused_bspec=None if has_bias else bq_spec, bkind=ls["b"],
               aspec=aspec if attr_act is not None else None,
               raw=ls.get("raw", "random"), braw=ls.get("braw", "random"), below_top=ls.get("below_top", 0),
-              wkind=ls["w"] if isinstance(ls["w"], str) else ls["w"][0], set_w=ls.get("set_w"))
+              wkind=ls["w"] if isinstance(ls["w"], str) else ls["w"][0], set_w=ls.get("set_w"),
+              geom=geom if kind == fam else dict(padding="valid", strides=1, dilation=1), signs=ls.get("signs"))
     b.items.append(it)
     b.nodes.append(None)      # filled after the weights are known (kernel shape, auto_po2 scales)
     if aspec is not None and attr_act is None:
@@ -650,6 +778,8 @@ def build(rng, spec, idx):
       new.append(raw_bias(rng, it["bspec"], ws[1].shape[0], it["braw"], it["below_top"]))
     if it["set_w"] is not None:
       new = [np.asarray(v, dtype=np.float32) for v in it["set_w"]][: len(ws)]
+    if it["signs"] is not None:
+      new[0] = sign_by_tap(rng, new[0], it["signs"], it["cls"])
     lyr.set_weights(new)
     it["kshape"] = [int(v) for v in ws[0].shape]
   return b
@@ -732,22 +862,48 @@ def run_layers(b, x):
 
 
 def ref_preact(it, k, bias):
-  """float64 recomputation of the pre-activation (exact in the generated regime)"""
+  """float64 recomputation of the pre-activation (exact in the generated regime), with the layer's padding / strides /
+  dilation written out ("causal" = left padding of dilation * (k - 1), then "valid")"""
   import tensorflow as tf
   x = tf.constant(it["x"], tf.float64)
   kk = tf.constant(k, tf.float64)
   cls = it["cls"]
+  g = it.get("geom") or dict(padding="valid", strides=1, dilation=1)
+  pad, st, dil = g["padding"].upper(), int(g["strides"]), int(g["dilation"])
   if cls == "QDense":
     y = tf.matmul(x, kk)
   elif cls == "QConv1D":
-    y = tf.nn.conv1d(x, kk, stride=1, padding="VALID")
+    if pad == "CAUSAL":
+      x = tf.pad(x, [[0, 0], [dil * (int(kk.shape[0]) - 1), 0], [0, 0]])
+      pad = "VALID"
+    y = tf.nn.conv1d(x, kk, stride=st, padding=pad, dilations=dil)
   elif cls == "QConv2D":
-    y = tf.nn.conv2d(x, kk, strides=1, padding="VALID")
+    y = tf.nn.conv2d(x, kk, strides=st, padding=pad, dilations=dil)
   else:
-    y = tf.nn.depthwise_conv2d(x, kk, strides=[1, 1, 1, 1], padding="VALID")
+    y = tf.nn.depthwise_conv2d(x, kk, strides=[1, st, st, 1], padding=pad, dilations=[dil, dil])
   if bias is not None:
     y = y + tf.constant(bias, tf.float64)
   return y.numpy()
+
+
+def layer_extremal_masks(lyr, ish, cap=400):
+  """geometry-agnostic worst-case inputs of an affine layer, measured on the REAL layer: the output element `o` is
+  y0[o] + sum_j J[j, o] x_j with J[j, o] = layer(e_j)[o] - layer(0)[o] (unit impulses; exact for short dyadic constants), so
+  on the box [xmin, xmax]^n its maximum is attained at x_j = xmax where J[j, o] > 0 and xmin elsewhere, its minimum at
+  the complementary corner.  Returns the distinct boolean corner masks (one per output element, deduplicated): whatever
+  padding / strides / dilation / data layout the layer uses, every (output position, output channel) — border positions
+  whose taps fall on the padding included — gets its own extremal input."""
+  import tensorflow as tf
+  n = int(np.prod(ish))
+  basis = np.zeros((n + 1,) + tuple(ish), np.float32)
+  for j in range(n):
+    basis[j + 1].flat[j] = 1.0
+  y = lyr(tf.constant(basis)).numpy().astype(np.float64)
+  jac = (y[1:] - y[0]).reshape(n, -1)
+  masks = np.unique((jac > 0).T, axis=0)
+  if len(masks) > cap:
+    masks = masks[np.linspace(0, len(masks) - 1, cap).astype(int)]
+  return masks.reshape((-1,) + tuple(ish)), jac
 
 
 # --------------------------------------------------------------------------- the check
@@ -778,9 +934,10 @@ def run(run: core.Run, tier: str):
   from qkeras import quantizers as Q
   from qkeras.qtools import run_qtools, qtools_util
   from qkeras.utils import model_save_quantized_weights
-  from qkeras.estimate import analyze_accumulator
+  from qkeras.estimate import analyze_accumulator, analyze_accumulator_from_sample
   from absl import logging as absl_logging
   absl_logging.set_verbosity(absl_logging.FATAL)
+  tf.get_logger().setLevel("ERROR")         # Model.predict of many small models: "tf.function retracing" warnings
   rng = np.random.default_rng(run.seed)
   tf.random.set_seed(int(run.seed))         # bernoulli samples in every call; keep the run reproducible
   run.extra["rule"] = (
@@ -798,7 +955,13 @@ def run(run: core.Run, tier: str):
       "QTools(is_inference=True) with model_weights_already_quantized False (re-quantized) or True (constants stored "
       "quantized), and is_inference=False again on the same model (must equal the first); aimed inference cases: po2 "
       "kernels / biases whose largest-magnitude constant is negative only / positive only / tied, at and below the "
-      "type's top exponent; inputs: all-max, all-min, sign-aligned and anti-aligned with "
+      "type's top exponent; ESTIMATOR: stream est_geom = single layers with padding same / causal / valid, strides 2, "
+      "dilation 2, odd / even kernel sizes, kernels whose sign follows the tap position, sized by analyze_accumulator for "
+      "12 stated ranges (containing / touching / excluding zero, degenerate points, both signs; tuple / list / ndarray / "
+      "numpy-scalar / int forms), every other estimator model additionally for two zero-excluding ranges; measured on the "
+      "exact worst-case corner of every output element (from the real layer's impulse responses); "
+      "analyze_accumulator_from_sample(conservative) on batches whose first sample spans / does not span the batch range, "
+      "with one and with two quantized layers; inputs: all-max, all-min, sign-aligned and anti-aligned with "
       "each output channel's effective kernel, random lattice points; non-trivial = distinct (stream, family, "
       "weight/bias/activation quantizers, kernel shape); every tensor value is judged by Lean Val on the type "
       "the REAL QTools reported")
@@ -806,6 +969,7 @@ def run(run: core.Run, tier: str):
   chain_lines, chain_meta = [], []
   judge_lines, judge_meta = [], []
   est_lines, est_meta = [], []
+  fs_lines, fs_meta = [], []
   pop_lines, pop_meta = [], []
   inexact = 0
   n_pre = 0
@@ -1046,7 +1210,7 @@ def run(run: core.Run, tier: str):
     # ---- stream 3: the estimator, single q-layer models whose kernel re-quantizes idempotently
     resampled = any("bernoulli" in ((it["wspec"] or ("",))[0], (it["bspec"] or ("",))[0]) for it in layers)
     if (len(layers) == 1 and layers[0]["scale"] is None and not resampled
-        and spec["stream"] in ("grid", "random", "mostneg", "est_dw", "alias")):
+        and spec["stream"] in ("grid", "random", "mostneg", "est_dw", "alias", "est_geom")):
       it = layers[0]
       lyr = it["layer"]
       try:
@@ -1077,12 +1241,13 @@ def run(run: core.Run, tier: str):
         xmin, xmax = -1.0, 1.0
       if "est_range" in spec:
         xmin, xmax = spec["est_range"]
-      try:
-        with np.errstate(all="ignore"), quiet():
-          res = analyze_accumulator(model, {lyr.name: (xmin, xmax)})
-        impl = {"ok": int(res[lyr.name])}
-      except (OverflowError, IndexError, ValueError) as e:
-        impl = {"err": type(e).__name__}
+      # every model is ALSO sized for stated ranges that exclude zero (one strictly positive, one strictly negative or a
+      # degenerate point); the geometry stream takes the whole list
+      if spec.get("est_ranges"):
+        ranges = list(EST_RANGES)
+      else:
+        zx = [r_ for r_ in EST_RANGES if r_[0] > 0 or r_[1] < 0]
+        ranges = [(xmin, xmax), zx[idx % len(zx)], zx[(idx // len(zx) + idx + 3) % len(zx)]]
       # one flattened kernel slice per OUTPUT channel, from the layer semantics (not from the implementation's
       # indexing): dense / conv: k[..., o]; depthwise (kh, kw, cin, dm): output channel c*dm + m <- k[:, :, c, m]
       if it["cls"] == "QDepthwiseConv2D":
@@ -1093,36 +1258,106 @@ def run(run: core.Run, tier: str):
       if not lyr.use_bias:
         bvec = np.zeros((len(chan),))
       slices = [core.enc_list(c_.ravel()) for c_ in chan]
-      est_lines.append({"op": "est", "slices": slices, "bias": core.enc_list(bvec),
-                        "xmin": core.rj(xmin), "xmax": core.rj(xmax)})
-      # measured max |output| of the REAL layer on extremal inputs inside [xmin, xmax]
       ish = tuple(xin.shape[1:])
-      outs = []
-      n_out = k.shape[-1]
-      pats = []
-      for c in range(n_out):
-        pat = k[..., c]
-        sgn = np.ones(ish)
-        if pat.shape == ish:
-          sgn = np.where(pat > 0, 1.0, -1.0)
-        else:
-          try:
-            sgn[tuple(slice(0, s) for s in pat.shape)] = np.where(pat > 0, 1.0, -1.0)
-          except Exception:  # pylint: disable=broad-except
-            pass
-        if it["cls"] == "QDepthwiseConv2D" and k.ndim == 4:
+      # exact worst-case corners of every output element, from the REAL layer's impulse responses
+      masks, jac = layer_extremal_masks(lyr, ish)
+      padded = bool(np.any((jac != 0).sum(axis=0) < (jac != 0).sum(axis=0).max())) if jac.size else False
+      g = it["geom"]
+      for ri, (xmin, xmax) in enumerate(ranges):
+        form = (idx + ri) % 5
+        try:
+          with np.errstate(all="ignore"), quiet():
+            res = analyze_accumulator(model, {lyr.name: range_form(xmin, xmax, form)})
+          impl = {"ok": int(res[lyr.name])}
+        except (OverflowError, IndexError, ValueError) as e:
+          impl = {"err": type(e).__name__}
+        est_lines.append({"op": "est", "slices": slices, "bias": core.enc_list(bvec),
+                          "xmin": core.rj(xmin), "xmax": core.rj(xmax)})
+        # measured max |output| of the REAL layer on extremal inputs inside [xmin, xmax]
+        n_out = k.shape[-1]
+        pats = []
+        for c in range(n_out):
+          pat = k[..., c]
           sgn = np.ones(ish)
-          blk = np.where(k[..., c] > 0, 1.0, -1.0)          # (kh, kw, cin)
-          sgn[: blk.shape[0], : blk.shape[1], :] = blk
-        pats.append(np.where(sgn > 0, xmax, xmin))
-        pats.append(np.where(sgn > 0, xmin, xmax))
-      pats.append(np.full(ish, xmax))
-      pats.append(np.full(ish, xmin))
-      yb = lyr(tf.constant(np.stack(pats).astype(np.float32))).numpy().astype(np.float64)
-      per_chan = np.abs(yb).reshape(-1, yb.shape[-1]).max(axis=0)
-      est_meta.append(dict(model=idx, family=spec["family"], cls=it["cls"], impl=impl, xmin=xmin, xmax=xmax,
-                           shape=[int(v) for v in k.shape], per_chan=[float(v) for v in per_chan],
-                           bias_nonzero=bool(np.any(bvec != 0)), wlabel=label(it["wspec"])))
+          if pat.shape == ish:
+            sgn = np.where(pat > 0, 1.0, -1.0)
+          else:
+            try:
+              sgn[tuple(slice(0, s) for s in pat.shape)] = np.where(pat > 0, 1.0, -1.0)
+            except Exception:  # pylint: disable=broad-except
+              pass
+          if it["cls"] == "QDepthwiseConv2D" and k.ndim == 4:
+            sgn = np.ones(ish)
+            blk = np.where(k[..., c] > 0, 1.0, -1.0)          # (kh, kw, cin)
+            sgn[: blk.shape[0], : blk.shape[1], :] = blk
+          pats.append(np.where(sgn > 0, xmax, xmin))
+          pats.append(np.where(sgn > 0, xmin, xmax))
+        pats.append(np.full(ish, xmax))
+        pats.append(np.full(ish, xmin))
+        pats.extend(np.where(masks, xmax, xmin))
+        pats.extend(np.where(masks, xmin, xmax))
+        xb = np.stack(pats).astype(np.float32)
+        yb = lyr(tf.constant(xb)).numpy().astype(np.float64)
+        flat = np.abs(yb).reshape(-1, yb.shape[-1])
+        per_chan = flat.max(axis=0)
+        worst = int(np.argmax(flat.max(axis=1))) // max(1, int(np.prod(yb.shape[1:-1])))
+        est_meta.append(dict(model=idx, family=spec["family"], cls=it["cls"], impl=impl, xmin=xmin, xmax=xmax,
+                             shape=[int(v) for v in k.shape], per_chan=[float(v) for v in per_chan],
+                             bias_nonzero=bool(np.any(bvec != 0)), wlabel=label(it["wspec"]),
+                             padding=g["padding"], strides=int(g["strides"]), dilation=int(g["dilation"]),
+                             range_class=range_class(xmin, xmax), range_form=form, border_taps_on_padding=padded,
+                             input_shape=list(ish), kernel=[float(v) for v in k.ravel()[:64]],
+                             bias=[float(v) for v in bvec], worst_input=[float(v) for v in xb[worst].ravel()[:100]]))
+        run.count("est_range_" + range_class(xmin, xmax))
+        run.count("est_geom_%s_s%d_d%d" % (g["padding"], int(g["strides"]), int(g["dilation"])))
+        if padded and (xmin > 0 or xmax < 0):
+          run.count("est_padded_border_with_zero_excluding_range")
+      # ---- route analyze_accumulator_from_sample(mode="conservative"): the stated range is DERIVED from a sample batch
+      #      at the layer's input.  Design "spans": the first sample already holds the batch minimum and maximum; design
+      #      "narrow": the first sample is constant, the extremes come later in the batch.  Each on the model itself (ONE
+      #      quantized layer) and, for "narrow", on a twin with a second quantized layer beside it (predict returns a
+      #      list per layer there).  Judged against the range of the WHOLE batch: its own samples and the exact corners.
+      if spec.get("est_ranges") and b.items[0] is it and (idx % 2 == 0 or tier != "quick"):
+        zr = [r_ for r_ in EST_RANGES if r_ != (0.0, 0.0)]
+        lo_, hi_ = zr[(idx // 2) % len(zr)]
+        mid_ = lo_ + (hi_ - lo_) * 0.25
+        smp = [np.full(ish, mid_), np.full(ish, hi_), np.full(ish, lo_),
+               np.where(masks[len(masks) // 2], hi_, lo_), np.where(masks[0], lo_, hi_)]
+        spans = [np.where(np.arange(int(np.prod(ish))).reshape(ish) % 2 == 0, hi_, lo_)] + smp[1:]
+        twin = None
+        for design, batch, single in (("spans", spans, True), ("narrow", smp, True), ("narrow", smp, False)):
+          xb = np.stack(batch).astype(np.float32)
+          mdl = model
+          if not single:
+            x2 = tf.keras.layers.Input(ish, name="in%d_twin" % idx)
+            l2 = lyr.__class__.from_config(lyr.get_config())
+            y1 = l2(x2)
+            l2.set_weights(lyr.get_weights())
+            from qkeras import QDense as _QDense
+            y2 = _QDense(1, kernel_quantizer=Q.quantized_bits(4, 0, 1, alpha=1), use_bias=False,
+                         name="L%d_extra" % idx)(tf.keras.layers.Flatten(name="L%d_flat" % idx)(x2))
+            mdl = twin = tf.keras.Model(x2, [y1, y2])
+          try:
+            with np.errstate(all="ignore"), quiet():
+              res = analyze_accumulator_from_sample(mdl, xb, mode="conservative")
+            impl = {"ok": int(res[lyr.name])}
+          except (OverflowError, IndexError, ValueError) as e:
+            impl = {"err": type(e).__name__}
+          fs_lines.append({"op": "from_sample", "single": single, "slices": slices, "bias": core.enc_list(bvec),
+                           "samples": [core.enc_list(v.ravel()) for v in xb.astype(np.float64)]})
+          pats = list(xb) + list(np.where(masks, hi_, lo_)) + list(np.where(masks, lo_, hi_))
+          xw = np.stack(pats).astype(np.float32)
+          yb = lyr(tf.constant(xw)).numpy().astype(np.float64)
+          flat = np.abs(yb).reshape(len(xw), -1, yb.shape[-1]).max(axis=1)        # (inputs, channels)
+          on_sample = flat[: len(xb)].max(axis=0)
+          worst = int(np.argmax(flat.max(axis=1)))
+          fs_meta.append(dict(model=idx, cls=it["cls"], impl=impl, design=design, single=single, lo=lo_, hi=hi_,
+                              shape=[int(v) for v in k.shape], padding=g["padding"], per_chan=[float(v) for v in flat.max(axis=0)],
+                              per_chan_on_sample=[float(v) for v in on_sample], range_class=range_class(lo_, hi_),
+                              input_shape=list(ish), kernel=[float(v) for v in k.ravel()[:64]], bias=[float(v) for v in bvec],
+                              first_sample=[float(v) for v in xb[0].ravel()[:50]],
+                              worst_input=[float(v) for v in xw[worst].ravel()[:100]], worst_is_sample=worst < len(xb)))
+          run.count("from_sample_%s_%s" % (design, "one_qlayer" if single else "two_qlayers"))
       run.count("est_" + it["cls"])
     tf.keras.backend.clear_session()
 
@@ -1276,7 +1511,8 @@ def run(run: core.Run, tier: str):
     mres = o["result"]
     agree = (mres == meta["impl"])
     if not agree:
-      run.disagree("analyze_accumulator", {k_: meta[k_] for k_ in ("model", "cls", "shape", "xmin", "xmax", "wlabel")},
+      run.disagree("analyze_accumulator", {k_: meta[k_] for k_ in ("model", "cls", "shape", "xmin", "xmax", "wlabel", "padding",
+                                                                   "range_class", "range_form")},
                    meta["impl"], mres)
     rank = len(meta["shape"])
     if "err" in meta["impl"]:
@@ -1298,10 +1534,44 @@ def run(run: core.Run, tier: str):
     if badc:
       run.violate("estimator_bounds_output",
                   {"site": "estimator", "exc": None, "cls": meta["cls"], "rank": rank,
-                   "bias_nonzero": meta["bias_nonzero"]},
+                   "bias_nonzero": meta["bias_nonzero"], "padding": meta["padding"], "range_class": meta["range_class"]},
                   {"layer": meta["cls"], "kernel": meta["wlabel"], "kernel_shape": meta["shape"],
-                   "range": [meta["xmin"], meta["xmax"]], "estimate": est, "max_abs_output_per_channel": meta["per_chan"], "channels_over": badc},
+                   "padding": meta["padding"], "strides": meta["strides"], "dilation_rate": meta["dilation"],
+                   "range": [meta["xmin"], meta["xmax"]], "range_form": meta["range_form"], "estimate": est,
+                   "max_abs_output_per_channel": meta["per_chan"], "channels_over": badc,
+                   "input_shape": meta["input_shape"], "kernel_values_flat": meta["kernel"], "bias_values": meta["bias"],
+                   "failing_input_flat": meta["worst_input"], "model_estimate": mres},
                   mirrored=agree)
+
+  # ------------------------------------------------------------------ Lean: estimator from a sample
+  outs = core.run_driver("C18", fs_lines)
+  for meta, line, o in zip(fs_meta, fs_lines, outs):
+    run.compared += 1
+    mres = o["result"]
+    agree = (mres == meta["impl"])
+    if not agree:
+      run.disagree("analyze_accumulator_from_sample",
+                   {k_: meta[k_] for k_ in ("model", "cls", "shape", "design", "single", "lo", "hi", "padding")},
+                   meta["impl"], {"result": mres, "range": [float(core.unrj(v)) for v in o["range"]]})
+    key = {"site": "estimator_from_sample", "cls": meta["cls"], "one_quantized_layer": meta["single"],
+           "first_sample_spans_batch_range": meta["design"] == "spans", "padding": meta["padding"]}
+    detail = {"layer": meta["cls"], "kernel_shape": meta["shape"], "padding": meta["padding"],
+              "sample_batch_range": [meta["lo"], meta["hi"]], "first_sample_flat": meta["first_sample"],
+              "result": meta["impl"], "model_result": mres, "model_derived_range": [float(core.unrj(v)) for v in o["range"]],
+              "max_abs_output_per_channel_on_the_sample": meta["per_chan_on_sample"],
+              "max_abs_output_per_channel_on_the_batch_range": meta["per_chan"], "input_shape": meta["input_shape"],
+              "kernel_values_flat": meta["kernel"], "bias_values": meta["bias"],
+              "failing_input_flat": meta["worst_input"], "failing_input_is_a_sample": meta["worst_is_sample"]}
+    if "err" in meta["impl"]:
+      run.count("from_sample_raises_" + meta["impl"]["err"])
+      if meta["impl"]["err"] != "OverflowError" or any(v > 0 for v in meta["per_chan"]):
+        run.violate("estimator_bounds_output", dict(key, exc=meta["impl"]["err"]), detail, mirrored=agree)
+      continue
+    bound = 2.0 ** meta["impl"]["ok"]
+    badc = [c for c, v in enumerate(meta["per_chan"]) if v > bound]
+    run.count("from_sample_ok")
+    if badc:
+      run.violate("estimator_bounds_output", dict(key, exc=None), dict(detail, channels_over=badc), mirrored=agree)
 
   # ------------------------------------------------------------------ po2 real exponent range vs model
   lines, meta = [], []
